@@ -44,6 +44,7 @@ def build_node(env, symbolic=('pf', 'pi', 'pk')):
     class Drv(Module):
         pf = Parameter('float', FloatRange(lo, hi), readonly=False, default=lo)
         pi = Parameter('int', IntRange(ilo, ihi), readonly=False, default=ilo)
+        pbig = Parameter('wide int', IntRange(-(1 << 63), 1 << 63), readonly=False, default=0)
         pe = Parameter('enum', EnumType('e', a=1, b=2, c=5), readonly=False, default=1)
         pb = Parameter('bool', BoolType(), readonly=False, default=False)
         pstr = Parameter('string', StringType(0, 3), readonly=False, default='')
@@ -102,7 +103,7 @@ def build_node(env, symbolic=('pf', 'pi', 'pk')):
             """unexported"""
             log.append(('hiddencmd',))
 
-    for pname in ('pf', 'pi', 'pe', 'pb', 'pstr', 'ps', 'ps2', 'pa', 'hidden', 'cust', 'target', 'target_min', 'target_max',
+    for pname in ('pf', 'pi', 'pbig', 'pe', 'pb', 'pstr', 'ps', 'ps2', 'pa', 'hidden', 'cust', 'target', 'target_min', 'target_max',
                   'x', 'x_limits', 'pk', 'ro', 'pc'):
         def w(self, value, pname=pname):
             log.append((pname, value))
@@ -135,6 +136,7 @@ REQS = {
     'pf-none': ('change', 'm:_pf', 'none', PAYLOAD_ERRORS),
     'pf-list': ('change', 'm:_pf', 'list1', PAYLOAD_ERRORS),
     'pi-int': ('change', 'm:_pi', 'int', 'driver:pi'),
+    'pbig-int': ('change', 'm:_pbig', 'bigint', 'driver:pbig'),
     'pi-float': ('change', 'm:_pi', 'float', 'driver:pi'),
     'pi-str': ('change', 'm:_pi', 'str12', PAYLOAD_ERRORS),
     'pe-int': ('change', 'm:_pe', 'smallint', 'driver:pe'),
@@ -305,6 +307,9 @@ def judge_value(env, K, name, target, cand, entry, before, after, mod, spec):
             env.check(M.And(xl[0] <= v, v <= xl[1]), K + '/dynamic-limit-bypassed')
         if target in after:
             env.check(M.eq(after[target][0], v), K + '/cache-differs-from-written')
+        return
+    if target == 'pbig':
+        env.check(entry[1] == cand.value and M.pytype(entry[1]) is int, K + '/driver-got-other-value', [entry[1], cand.value])
         return
     if target == 'pi':
         v = entry[1]
